@@ -45,6 +45,13 @@ def table(prob, point):
             continue
         if want in outs and want.startswith(G + ".") and not want.startswith(".".join(abs_in.split(".")[:-1]) + "."):
             rows.append({"name": "perf:" + name, "consumer": abs_in, "source": conn.get(abs_in, "<unconnected>"), "frame": "body", "pgsrc": False, "want": want})
+    # nothing below a fully wired analysis point is left to a private default: an input that only the framework's automatic
+    # independent-variable component feeds (because a promotion alias or a missing promotion cut it off) is reported through
+    # ReadsOwnOutput (`want` = what it should have been fed by)
+    for abs_in in model._var_allprocs_abs2meta["input"]:
+        # (cg / omega of the coupled lattice and fuelburn with internally_connect_fuelburn=False are documented as left to the user)
+        if abs_in.startswith(point + ".") and conn.get(abs_in, "").startswith("_auto_ivc.") and abs_in.split(".")[-1] not in ("cg", "omega", "fuelburn"):
+            rows.append({"name": "dangling:" + abs_in.split(".")[-1], "consumer": abs_in, "source": conn[abs_in], "frame": "body", "pgsrc": False, "want": "<an output of the model or an input the point documents>"})
     expected = {}
     for n in FLOW_NAMES:
         try:
